@@ -8,6 +8,7 @@ import OpcuaModel.Model.MonMap
     remove <ids>                   → <state>
     notify <handle>                → <node> | none
     explain <obs>…                 → yes | no
+    mono <obs>…                    → yes | no   (values sent for a handle never go back)
   reqs = comma separated `node:ptr` (ptr `-` = nil MonitoringParameters), oks = bits,
   state = next=<n> handles=<h:node,…> items=<id:node:handle,…> srv=<id:node:handle,…>,
   obs = `E:<handle>:<value>` (enqueue under the service lock) | `P:<handle>:<value>,…` (published batch).
@@ -73,6 +74,10 @@ def handle (s : St) : List String → St × String
   | "explain" :: obs =>
     match obs.mapM parseObs with
     | some os => (s, if explain (2 * os.length + 10) [] os then "yes" else "no")
+    | none => (s, "bad-op")
+  | "mono" :: obs =>
+    match obs.mapM parseObs with
+    | some os => (s, if monoOK [] os then "yes" else "no")
     | none => (s, "bad-op")
   | _ => (s, "bad-op")
 
